@@ -105,6 +105,9 @@ func (array *arrayOfScalarField) AppendGoValue(value interface{}) (int, error) {
 	if err != nil {
 		return -1, err
 	}
+	if !reflectValue.IsValid() {
+		return -1, fmt.Errorf("cannot append nil value")
+	}
 	return array.appendProtoValue(reflectValue), nil
 }
 
@@ -112,6 +115,9 @@ func (array *arrayOfScalarField) AppendASTValue(value ASTValue) (int, error) {
 	reflectValue, err := scalarReflectFromAST(array.itemSchema.Proto, value)
 	if err != nil {
 		return -1, err
+	}
+	if !reflectValue.IsValid() {
+		return -1, fmt.Errorf("cannot append nil value")
 	}
 	return array.appendProtoValue(reflectValue), nil
 }
@@ -132,6 +138,9 @@ func (mapField *mapOfScalarField) SetGoValue(key string, value interface{}) erro
 	if err != nil {
 		return fmt.Errorf("converting value to proto: %w", err)
 	}
+	if !reflVal.IsValid() {
+		return fmt.Errorf("cannot set nil value for key %q", key)
+	}
 	mapField.setKey(key, reflVal)
 	return nil
 }
@@ -141,6 +150,9 @@ func (mapField *mapOfScalarField) SetASTValue(key string, value ASTValue) error 
 
 	if err != nil {
 		return fmt.Errorf("converting value to proto: %w", err)
+	}
+	if !reflVal.IsValid() {
+		return fmt.Errorf("cannot set nil value for key %q", key)
 	}
 	mapField.setKey(key, reflVal)
 	return nil
